@@ -5,6 +5,6 @@ CONSTANTS
   MaxDefs = 3
   MaxFiles = 3
   PoolSel = {1,2,3,4,5,6,7,8,9,10,11,12}
-INVARIANTS TypeOK MeasureNat TempIsStack EmittedOnce TemporariesEmpty TopoOrder CycleReported OrderIndependent FixedPointScoped
+INVARIANTS TypeOK MeasureNat TempIsStack EmittedOnce TemporariesEmpty TopoOrder TopoOrderStrict CycleReported OrderIndependent ForwardRefsResolve FixedPointScoped
 PROPERTIES Progress Termination
 CHECK_DEADLOCK FALSE
